@@ -32,6 +32,7 @@ package peers
 
 //@ func (peerSet *PeerSet) TrustCount() int
 //@   ints checked
+//@   float
 //@   safety on
 //@   requires peerSet != nil && len(peerSet.ByPubKey) < 2147483648 && len(peerSet.ByPubKey) <= len(peerSet.Peers)
 //@   modifies nothing
